@@ -14,6 +14,15 @@ rewritten before every build):
     signal_enum.go     calcEnumSize                 K.calcEnumSize
     canid_builder.go   (*CANIDBuilder).calculateOp  K.calculateOp
     signal_type.go     calcTypeRange                K.calcTypeRange
+    signal_layout.go   (*SignalLayout).verifyBeforeInsert   K.verifyBeforeInsert  (+ _loop1, _after1)
+    signal_layout.go   (*SignalLayout).verifyBeforeAppend   K.verifyBeforeAppend
+    signal_layout.go   (*SignalLayout).verifyBeforeShrink   K.verifyBeforeShrink
+    signal_layout.go   (*SignalLayout).verifyBeforeGrow     K.verifyBeforeGrow    (+ _loop1, _after1)
+    signal_layout.go   (*SignalLayout).verifyBeforeResize   K.verifyBeforeResize
+    signal_enum.go     (*SignalEnum).getMaxIndexWith        K.getMaxIndexWith     (+ _loop1, _after1)
+    signal_enum.go     (*SignalEnum).GetSize                K.enumGetSize
+    mux_signal.go      (*MultiplexerSignal).GetGroupCountSize   K.getGroupCountSize
+    mux_signal.go      (*MultiplexerSignal).GetSize         K.muxGetSize
 
 The theorems below state that each generated definition equals the hand-written model function
 that the properties C10 / C11 / C13 / C14 (and the layout properties through the enum / mux
@@ -53,11 +62,43 @@ Acme/Core/GenPrelude.lean):
   * `calcTypeRange` only: `float64(x)` of an integer `x` is the exact integer `x` (the float
     rounding of 2^64-1 and of ±2^63 is outside the model, as in Acme.Arith.typeRange).
 
+The layout checks (C01).  The five acceptance checks of the payload layout are translated with
+their loops:
+  * `sl.signals` ↦ `sigs : List Acme.Layout.Slot` (the signals in slice order; an element is only
+    observed through `EntityID()` ↦ `.id`, `GetRelativeStartPos()` ↦ `.start`, `GetSize()` ↦
+    `.size`; any other member is an error of the translator), `sl.size` ↦ `cap`, `sig.GetSize()`
+    ↦ `sz`, `sig.EntityID()` ↦ `id`; `EntityID` (a string) is an opaque identity ↦ `Nat`, only
+    compared with `==` / `!=`;
+  * `for _, x := range sl.signals { body }` ↦ a structurally recursive function over the list,
+    `K.<f>_loop1`, whose arguments are ALL the variables visible at the loop (assignments in the
+    body shadow them, so loop-carried variables are accumulators): `return e` ↦ `e`, `break` ↦
+    the continuation `K.<f>_after1` (the code after the loop), `continue` / end of the body ↦
+    the recursive call on the tail, `[]` ↦ the continuation;
+  * `len(sl.signals)` ↦ `List.length`; `x := sl.signals[i]` ↦ `match GoSem.index? sigs i with
+    | none => Res.panic | some x => ..`: a kernel with an index expression returns
+    `GoSem.Res _`, and the equalities below (the model never yields `LErr.panic` in these
+    checks) prove that the index is in range for every list: `K_verifyBeforeAppend_no_panic`,
+    `K_verifyBeforeResize_no_panic`;
+  * a Go `error` result ↦ `Option K.Cause`, where `K.Cause` is the GENERATED inductive of the
+    sentinels that occur (`ErrIsNegative`, `ErrIsZero`, `ErrOutOfBounds`, `ErrNoSpaceLeft`,
+    `ErrIntersect`, `ErrTooSmall`): `nil` ↦ `none`, `ErrX` and `&T{.., Err: ErrX}` ↦
+    `some .ErrX`.  The struct type `T` of the error (StartBitError, SignalSizeError) and its
+    other fields are ignored: the sentinel is what the model (and the harness, through
+    `errors.Is`) compares.  `Acme.GenK.ofCause` / `ofRes` map the results injectively
+    (`ofCause_injective`, `ofRes_injective`) to the model's `Except LErr Unit`.
+The equalities hold for ALL lists, capacities and arguments — no well-formedness (`WF`)
+assumption; like the hand model they are over unbounded `Int` (`startBit > sl.size - sigSize`
+is written overflow-free in the source on purpose).  A change of a comparison, of a bound, of
+the order of the tests, of a sentinel, a dropped `break` / `continue` breaks the theorem of
+that function.
+
 Where a hypothesis appears (`v < 2 ^ 64`) it says that the argument is a Go `int`: the model
 functions are defined on all of `Int`, the Go function only on 64-bit values (for `v ≥ 2^64` the
 conversion `uint64(val)` of the source has no counterpart in the model).
 -/
 import Acme.Proofs.GenKernels
+import Acme.Proofs.GenKernelsLayout
+import Acme.Proofs.GenKernelsEnum
 
 namespace Acme.Props.GenKernels
 
@@ -112,5 +153,75 @@ theorem K_calculateOp (op : Acme.CanId.BOp) (prev prio mid nid : BitVec 32) :
 theorem K_calcTypeRange (size : Int) (signed : Bool) :
     K.calcTypeRange size signed = Acme.Arith.typeRange size signed :=
   Acme.GenK.calcTypeRange_eq size signed
+
+/-! ### the acceptance checks of the payload layout (signal_layout.go, property C01) -/
+
+open Acme.Layout in
+/-- signal_layout.go `verifyBeforeInsert` = `Acme.Layout.verifyInsert`, for all layouts. -/
+theorem K_verifyBeforeInsert (cap : Int) (l : List Slot) (sz st : Int) :
+    Acme.GenK.ofCause (K.verifyBeforeInsert cap l sz st) = verifyInsert cap l sz st :=
+  Acme.GenK.verifyBeforeInsert_eq cap l sz st
+
+open Acme.Layout in
+/-- signal_layout.go `verifyBeforeAppend` = `Acme.Layout.verifyAppend`, for all layouts. -/
+theorem K_verifyBeforeAppend (cap : Int) (l : List Slot) (sz : Int) :
+    Acme.GenK.ofRes (K.verifyBeforeAppend cap l sz) = verifyAppend cap l sz :=
+  Acme.GenK.verifyBeforeAppend_eq cap l sz
+
+open Acme.Layout in
+/-- `sl.signals[sigCount-1]` in `verifyBeforeAppend` is never out of range. -/
+theorem K_verifyBeforeAppend_no_panic (cap : Int) (l : List Slot) (sz : Int) :
+    K.verifyBeforeAppend cap l sz ≠ .panic :=
+  Acme.GenK.verifyBeforeAppend_no_panic cap l sz
+
+/-- signal_layout.go `verifyBeforeShrink` = `Acme.Layout.verifyShrink`. -/
+theorem K_verifyBeforeShrink (sz amount : Int) :
+    Acme.GenK.ofCause (K.verifyBeforeShrink sz amount) = Acme.Layout.verifyShrink sz amount :=
+  Acme.GenK.verifyBeforeShrink_eq sz amount
+
+open Acme.Layout in
+/-- signal_layout.go `verifyBeforeGrow` = `Acme.Layout.verifyGrow`, for all layouts and ids. -/
+theorem K_verifyBeforeGrow (cap : Int) (l : List Slot) (id : Nat) (amount : Int) :
+    Acme.GenK.ofCause (K.verifyBeforeGrow cap l id amount) = verifyGrow cap l id amount :=
+  Acme.GenK.verifyBeforeGrow_eq cap l id amount
+
+open Acme.Layout in
+/-- signal_layout.go `verifyBeforeResize` = `Acme.Layout.verifyResize`, for all layouts. -/
+theorem K_verifyBeforeResize (cap : Int) (l : List Slot) (newCap : Int) :
+    Acme.GenK.ofRes (K.verifyBeforeResize cap l newCap) = verifyResize cap l newCap :=
+  Acme.GenK.verifyBeforeResize_eq cap l newCap
+
+open Acme.Layout in
+/-- `sl.signals[len(sl.signals)-1]` in `verifyBeforeResize` is never out of range. -/
+theorem K_verifyBeforeResize_no_panic (cap : Int) (l : List Slot) (newCap : Int) :
+    K.verifyBeforeResize cap l newCap ≠ .panic :=
+  Acme.GenK.verifyBeforeResize_no_panic cap l newCap
+
+/-! ### enum and multiplexer sizes -/
+
+/-- signal_enum.go `getMaxIndexWith` = `Acme.Payload.maxIndexWith`.  The Go function ranges
+    over the MAP of the enum's values; the translation takes its values as a list in an
+    arbitrary order (`viewVals w values` = the (id, index) pairs of the model's value ids), and
+    the equality holds for every list, i.e. for every iteration order. -/
+theorem K_getMaxIndexWith (w : Acme.Payload.W) (values : List Nat) (v : Nat) (index : Int) :
+    K.getMaxIndexWith (Acme.GenK.viewVals w values) v index =
+      Acme.Payload.maxIndexWith w values v index :=
+  Acme.GenK.getMaxIndexWith_eq w values v index
+
+/-- signal_enum.go `SignalEnum.GetSize` = `Acme.Arith.enumSize` of its two fields. -/
+theorem K_enumGetSize (minSize maxIndex : Int) (h : maxIndex < 2 ^ 64) :
+    K.enumGetSize minSize maxIndex = Acme.Arith.enumSize minSize maxIndex :=
+  Acme.GenK.enumGetSize_eq minSize maxIndex h
+
+/-- mux_signal.go `GetGroupCountSize` = `Acme.Arith.muxSelWidth`, for every Go `int`. -/
+theorem K_getGroupCountSize (groupCount : Int) (h : groupCount ≤ 2 ^ 64) :
+    K.getGroupCountSize groupCount = Acme.Arith.muxSelWidth groupCount :=
+  Acme.GenK.getGroupCountSize_eq groupCount h
+
+/-- mux_signal.go `MultiplexerSignal.GetSize` (with its call of `GetGroupCountSize` composed in
+    the statement) = the multiplexer case of `Acme.Mux.sigSize`. -/
+theorem K_muxGetSize (e : Acme.Mux.SigE) (gc gs : Int) (hk : e.kind = .mux gc gs) (h : gc ≤ 2 ^ 64) :
+    K.muxGetSize gs (K.getGroupCountSize gc) = Acme.Mux.sigSize e :=
+  Acme.GenK.muxGetSize_eq e gc gs hk h
 
 end Acme.Props.GenKernels
